@@ -42,7 +42,10 @@ def gen_key(rng, used, env=False):
     for _ in range(100):
         n = rng.choice((1, 1, 2, 3, 5, 9))
         k = "".join(rng.choice(ALPHA) for _ in range(n))
-        if not k or "=" in k or "//" in k or k[0] == "_" or k[0] == "/" or k[-1] == "/":
+        if env and rng.random() < 0.15:
+            k = "_" + k  # environment variables may begin with an underscore (_JAVA_OPTIONS, __PYVENV_LAUNCHER__): the rule about
+            # leading underscores is about attribute names, i.e. about the key as written ("env:_X" begins with "e")
+        if not k or "=" in k or "//" in k or (k[0] == "_" and not env) or k[0] == "/" or k[-1] == "/":
             continue
         if not env and (k == "env" or k.startswith("env:")):
             continue
